@@ -1,5 +1,7 @@
 /- C15 driver: predicts, from the abstract description on each case line, the canonical outcome
-   that harness/h_limits.c prints for the real code (same format, minus the `t=` timing tokens). -/
+   that harness/h_limits.c prints for the real code (same format, minus the `t=` timing tokens).
+   The oracle is the model instantiated with the SPECIFICATION guards (`Guards.spec`, proved sound in
+   Thm/C15.spec_guards_sound); the limits themselves come from the case line or the generated defaults. -/
 import YaraModel.Model.Limits
 import Driver.Util
 namespace Driver.Limits
@@ -64,7 +66,7 @@ def runMl (kv : KV) : String :=
     | some a => (List.range (a.toNat?.getD 0)).map fun i => ⟨i, 1⟩
     | none => parseOffs (getD kv "offs" "-")
   let (l, codesRev) := ms.foldl (fun (acc : MList × List String) m =>
-      let r := addMatch MAX m rep acc.1
+      let r := addMatch Guards.spec MAX m rep acc.1
       (r.1, (match r.2 with | none => "OK" | some e => errName e) :: acc.2)) (MList.empty, [])
   let codes := rle codesRev.reverse
   let fwd := l.items.reverse
@@ -82,7 +84,7 @@ def runFib (kv : KV) : String :=
     match get? kv "n" with
     | some n => List.replicate (n.toNat?.getD 0) .create
     | none => (getD kv "ops" "").toList.filterMap fun c => if c == 'c' then some .create else if c == 'r' then some .release else none
-  let r := fibRun MAX ⟨0, 0, 0⟩ ops
+  let r := fibRun Guards.spec MAX ⟨0, 0, 0⟩ ops
   -- the harness counts successful creations, errors and the 1-based step of the first error
   let created := ((ops.zip r.2).filter fun (o, e) => o == .create && e.isNone).length
   let errs := (r.2.filter (·.isSome)).length
@@ -115,7 +117,7 @@ partial def parseRe : List Char → Option (Re × List Char)
 def runRe (kv : KV) : String :=
   match parseRe (getD kv "ast" "").toList with
   | some (r, []) =>
-    match emitCode (getNat kv "L" reMaxSplitId) r with
+    match emitCode Guards.spec (getNat kv "L" reMaxSplitId) r with
     | .ok c => s!" OK size={c.size}"
     | .error e => " " ++ errName e
   | _ => " BADAST"
@@ -127,28 +129,28 @@ def compileOutcome (kv : KV) : Option Err :=
   | "loops" =>
     let evs := (getD kv "shape" "").toList.filterMap fun c =>
       if c == '(' then some LoopEv.enter else if c == ')' then some LoopEv.exit else none
-    if (loopRun (getNat kv "L" maxLoopNesting) 0 evs).isNone then some .loopNesting else none
-  | "ident" => if identTooLong (getNat kv "n" 0) then some .identTooLong else none
+    if (loopRun Guards.spec (getNat kv "L" maxLoopNesting) 0 evs).isNone then some .loopNesting else none
+  | "ident" => if Guards.spec.identTooLong (getNat kv "n" 0) then some .identTooLong else none
   | "intlit" =>
     let suf := match getD kv "suf" "none" with | "kb" => Suffix.kb | "mb" => Suffix.mb | _ => Suffix.none
-    match intLiteral (getNat kv "value" 0) suf with
+    match intLiteral Guards.spec (getNat kv "value" 0) suf with
     | .ok _ => none
     | .error e => some e
   | "incl" =>
     let names := (getD kv "names" "").splitOn "," |>.filter (· ≠ "")
     let top := getD kv "top" "-"
     let stack := if top == "-" then [] else [top]
-    match pushChain (getNat kv "L" maxIncludeDepth) stack names with
+    match pushChain Guards.spec (getNat kv "L" maxIncludeDepth) stack names with
     | .ok _ => none
     | .error e => some e
   | "spr" =>
     let parts := ((getD kv "parts" "").splitOn ",").filterMap (·.toNat?)
     let n := parts.foldl (· + ·) 0
-    if (countStrings (getNat kv "M" defaultMaxStringsPerRule) 0 n).isNone then some .tooManyStrings else none
+    if (countStrings Guards.spec (getNat kv "M" defaultMaxStringsPerRule) 0 n).isNone then some .tooManyStrings else none
   | "resplit" =>
     match parseRe (getD kv "ast" "").toList with
     | some (r, []) =>
-      match emitCode (getNat kv "L" reMaxSplitId) r with
+      match emitCode Guards.spec (getNat kv "L" reMaxSplitId) r with
       | .ok _ => none
       | .error e => some e
     | _ => none
@@ -209,7 +211,7 @@ def insertSorted (x : String) : List String → List String
 def scanOut (label : String) (MAX : Nat) (cb : String) (rules : List RuleDecl) (segs : List (String × Nat)) (tokLen : Nat)
     (showPrefix : String) : String :=
   let evs := mkEvents rules segs tokLen
-  let r := scanEvents MAX (fun _ => cb == "c") SState.init evs
+  let r := scanEvents Guards.spec MAX (fun _ => cb == "c") SState.init evs
   let warned := r.1.warned.reverse.map fun sid => match rules[sid]? with | some rd => rd.str.id | none => "?"
   let tmm := if warned.isEmpty then "" else s!" {label}.tmm=" ++ ",".intercalate (warned.foldl (fun a x => insertSorted x a) [])
   match r.2 with
@@ -245,7 +247,7 @@ def runScan (kv : KV) : String :=
       else ""
     s!" OK{s}{b} sane=1"
   | "stack" =>
-    match vmRun (getNat kv "S" defaultStackSize) 0 (stackOps (getD kv "prog" "")) with
+    match vmRun Guards.spec (getNat kv "S" defaultStackSize) 0 (stackOps (getD kv "prog" "")) with
     | some _ => " OK S=OK S.res=r:1 sane=1"
     | none => " OK S=EXEC_STACK_OVERFLOW sane=1"
   | "timeout" => " OK S=SCAN_TIMEOUT sane=1"
